@@ -186,6 +186,29 @@ def step (s : St) (toks : List String) : St × String :=
     match (kv r "ast").bind parseAst with
     | some ast => (s, showSearch s.db (Index.search s.db ast))
     | _ => (s, "bad-op")
+  | "svcblock" :: r =>
+    -- IndexerService: BlockIndexer.Index (a rejected block leaves the block index as it was),
+    -- then TxIndexer.AddBatch of the block's txs in every case
+    match (kv r "height").bind String.toNat?, (kv r "begin").bind parseTxEvents,
+          (kv r "end").bind parseTxEvents, kv r "txs" with
+    | some h, some b, some e, some txs =>
+      let items := (splitList "+" txs).mapM fun t =>
+        match t.splitOn "@" with
+        | [tx, evs] => do
+          let tx ← str tx
+          let evs ← parseTxEvents evs
+          pure (tx, evs)
+        | _ => none
+      match items with
+      | some items =>
+        let rs : List Index.TxResult := (items.zipIdx).map fun (p, i) =>
+          { height := h, index := i, tx := p.1, events := p.2 }
+        let db := Index.addBatch Hs s.db rs
+        match BlockIndex.index s.bdb h b e with
+        | some bdb => ({ s with db := db, bdb := bdb }, "ok")
+        | none => ({ s with db := db }, "ok block-rejected")
+      | none => (s, "bad-op")
+    | _, _, _, _ => (s, "bad-op")
   | "bindex" :: r =>
     match (kv r "height").bind String.toNat?, (kv r "begin").bind parseTxEvents,
           (kv r "end").bind parseTxEvents with
